@@ -241,7 +241,7 @@ func IfInt32(c bool, a, b int32) int32 {
 // Symbolically, FSFaultNext(path, mode) makes the next WriteFile (to path, or to any file if path
 // is "*") behave as: 0 success, 1 error before the file is touched, 2 error after a proper prefix
 // was written (disk full), 3 process killed before the file is touched, 4 process killed part-way
-// through the write.
+// through the write, 5 process killed when all but the last byte were written.
 // Natively the same store states are produced without knowing how the code writes its store:
 // for modes 2 and 4 the process file-size limit (RLIMIT_FSIZE) is lowered to a few bytes while
 // the update runs, so that whatever file it writes breaks off part-way; for modes 1 and 3 the
@@ -253,6 +253,14 @@ var fsOldLimit syscall.Rlimit
 
 func FSFaultNext(path string, mode int) {
 	fsMode = mode
+	if mode == 5 {
+		// FSFaultSize told us how long the document is that the update is going to write
+		signal.Ignore(syscall.SIGXFSZ)
+		_ = syscall.Getrlimit(syscall.RLIMIT_FSIZE, &fsOldLimit)
+		lim := fsOldLimit
+		lim.Cur = uint64(fsSize - 1)
+		_ = syscall.Setrlimit(syscall.RLIMIT_FSIZE, &lim)
+	}
 	if mode == 2 || mode == 4 {
 		off := int(num("fault.offset"))
 		if off < 0 {
@@ -271,7 +279,7 @@ func FSSkip() bool { return fsMode == 1 || fsMode == 3 }
 
 // FSFaultEnd ends the fault window.
 func FSFaultEnd() {
-	if fsMode == 2 || fsMode == 4 {
+	if fsMode == 2 || fsMode == 4 || fsMode == 5 {
 		_ = syscall.Setrlimit(syscall.RLIMIT_FSIZE, &fsOldLimit)
 	}
 	fsMode = 0
@@ -281,7 +289,13 @@ func FSFaultEnd() {
 func FSEmulate(path string, offset int) {}
 
 // FaultCrashes reports whether a fault mode kills the process.
-func FaultCrashes(mode int) bool { return mode == 3 || mode == 4 }
+func FaultCrashes(mode int) bool { return mode == 3 || mode == 4 || mode == 5 }
+
+var fsSize int
+
+// FSFaultSize (native only): the length of the document the interrupted update writes, measured
+// by the harness in a dry run on a copy of the store directory.
+func FSFaultSize(n int) { fsSize = n }
 
 // TempDir is a fresh store directory.
 func TempDir() string {
@@ -344,3 +358,11 @@ var lockCount int
 // number of lock acquisitions). Natively it does nothing; a counterexample is confirmed by
 // re-executing the real code concretely inside the executor.
 func AssertSym(label string, b bool) {}
+
+// Threads / Quiesce / Yield / Preemptions belong to the engine's bounded thread model. Harnesses
+// that use them assert with AssertSym only and are never executed natively (a native run cannot
+// be steered through a chosen schedule); the native versions exist so that the package compiles.
+func Threads(preemptionBound int) {}
+func Quiesce()                    { time.Sleep(50 * time.Millisecond) }
+func Yield()                      {}
+func Preemptions() int            { return 0 }
